@@ -293,7 +293,11 @@ def C13(tier, seed):
         for s in range(8):
             jobs.append({"name": f"ta_{s}", "module": "WpTickArray", "args": ["ta", "--seed", str(seed * 100 + s), "--paths", "@ta_paths@", "--sample", "100000", "--random", "2500"]})
         ex = True
+    # histories of the real program over pools that mix fixed and dynamic arrays: every array stays well formed after every instruction
+    for tk in ("spl", "t22"):
+        jobs += hist_jobs(f"hist_{tk}_", seed, 2 if tier == "quick" else 8, 4 if tier == "quick" else 40, 150 if tier == "quick" else 300, tk)
     return {"active": ["C13"], "drivers": jobs, "models": [], "gen": gen, "exhaustive": ex,
+            "must_hit": {"liq.dynamic_tick_array": 5, "liq.mixed_array_encodings": 2},
             "explanation": "TLC explores the abstract tick array over the boundary slot set completely (3^8 contents) and prints one shortest update path per content; the harness "
                            "replays each path and every update/query out of the reached content into Anchor-fixed, Anchor-dynamic, Pinocchio-fixed and Pinocchio-dynamic arrays; "
                            "TLC validates results, contents, bitmap, used length (148 + 112 n) and next-initialized-tick answers; plus random sequences over all 88 slots with full-width payloads"}
